@@ -133,6 +133,29 @@ fn one(ctx: &mut Ctx, env: &Env, rng: &mut Rng, base: &Engine, rv: &RefVoice, de
             ctx.count("degenerate_constant_f0_with_gv_skipped", 1.0);
             return;
         }
+        // (the same when the trajectory is constant *before* the variance is restored, over the
+        // frames that take part in the variance: the GV step then stretches rounding noise —
+        // a variance of 1e-31 instead of 0 — to the target variance, see DESIGN 6.4)
+        {
+            use jbonsai::mlpg_adjust::MlpgAdjust;
+            use jbonsai::model::Models;
+            let models = Models::new(&labels, &e0.voices, e0.condition.get_interporation_weight());
+            let mut ms = models.model_stream(1);
+            let switch: Vec<bool> = match ms.gv.take() {
+                Some((_, sw)) => sw.iter().zip(&r0.durations).flat_map(|(s, d)| std::iter::repeat(*s).take(*d)).collect(),
+                None => vec![true; m0.len()],
+            };
+            let ml = MlpgAdjust::new(0.0, thr, ms).create(&r0.durations);
+            let vals: Vec<f64> = ml.iter().zip(&switch).filter(|(f, s)| **s && f[0] != NODATA).map(|(f, _)| f[0]).collect();
+            if !vals.is_empty() {
+                let mean = vals.iter().sum::<f64>() / vals.len() as f64;
+                let var = vals.iter().map(|x| (x - mean) * (x - mean)).sum::<f64>() / vals.len() as f64;
+                if var < 1e-10 {
+                    ctx.count("degenerate_constant_f0_with_gv_skipped", 1.0);
+                    return;
+                }
+            }
+        }
     }
     if clamp_hit {
         ctx.count("clamp_branch_cases_isolation_only", 1.0);
